@@ -744,8 +744,11 @@ singleton	:  singleton '*'
 
 			++rulelen;
 
-            if (sf_dot_all())
+            if (sf_dot_all()) {
+                /* (?s:.) matches newline too */
+                rule_has_nl[num_rules] = true;
                 $$ = mkstate( -cclany );
+            }
             else
                 $$ = mkstate( -ccldot );
 			}
